@@ -829,6 +829,32 @@ fn helper_extra(trigger: usize, nest: usize, pos: usize) -> Option<String> {
     }
     None
 }
+/// TypeScript: a user / library type mapped (type_mappings) to a type text with reviver / replacer snippets (`Date`, `Uint8Array`) needs the footer too
+const TS_MAPPED: [(&str, &str, &str); 2] = [("DateTime", "DateTime<Utc>", "Date"), ("Bytes", "Bytes", "Uint8Array")];
+fn ts_mapped_case(m: usize, pos: usize) -> Option<String> {
+    use std::collections::HashMap;
+    use typeshare_core::language::{Language, TypeScript};
+    let (name, rust, ts) = TS_MAPPED[m];
+    let src = match pos {
+        0 => format!("#[typeshare]\npub struct S {{ pub f: {} }}\n", rust),
+        1 => format!("#[typeshare]\npub struct S {{ pub f: Option<{}> }}\n", rust),
+        2 => format!("#[typeshare]\n#[serde(tag = \"t\", content = \"c\")]\npub enum E {{ V {{ x: {} }}, W }}\n", rust),
+        3 => format!("#[typeshare]\npub struct S {{ pub f: Vec<{}> }}\n", rust),
+        4 => format!("#[typeshare]\n#[serde(tag = \"t\", content = \"c\")]\npub enum E {{ V({}), W }}\n", rust),
+        _ => format!("#[typeshare]\npub type Al = {};\n", rust),
+    };
+    let d = panic::catch_unwind(|| parse_named(&src, "f.rs")).ok().flatten().filter(|d| d.errors.is_empty())?;
+    let maps: HashMap<String, String> = [(name.to_string(), ts.to_string())].into_iter().collect();
+    let mut out: Vec<u8> = Vec::new();
+    if (TypeScript { no_version_header: true, type_mappings: maps, ..Default::default() }).generate_types(&mut out, &HashMap::new(), d).is_err() { return None; }
+    let out = String::from_utf8(out).unwrap();
+    let body = out.split("export const ReviverFunc").next().unwrap_or("");
+    let code: String = code_regions("typescript", body).iter().map(|(a, b)| &body[*a..*b]).collect::<Vec<_>>().join(" ");
+    if token_uses(&code, ts) > 0 && !(out.contains("export const ReviverFunc") && out.contains("export const ReplacerFunc")) {
+        return Some(format!("typescript (\"{}\" = \"{}\"): `{}` is used in the generated code of `{}` but the ReviverFunc / ReplacerFunc helpers that translate it are not emitted", name, ts, ts, src.lines().last().unwrap_or("")));
+    }
+    None
+}
 /// generic parameters (Python TypeVars): a parameter that occurs only inside some container of a struct field / variant payload must still be declared
 const TYPEVAR_NEST: [&str; 8] = ["B", "Vec<B>", "Option<B>", "[B; 2]", "&'static [B]", "HashMap<String, B>", "Vec<[B; 3]>", "Wrap<B>"];
 fn typevar_case(nest: usize, shape: usize) -> Option<String> {
@@ -838,6 +864,9 @@ fn typevar_case(nest: usize, shape: usize) -> Option<String> {
     let src = match shape {
         0 => format!("#[typeshare]\npub struct Wrap<T> {{ pub t: T }}\n#[typeshare]\npub struct S<B> {{ pub f: {} }}\n", ty),
         1 => format!("#[typeshare]\npub struct Wrap<T> {{ pub t: T }}\n#[typeshare]\n#[serde(tag = \"t\", content = \"c\")]\npub enum E<B> {{ V({}), W }}\n", ty),
+        // a parameter no emitted member mentions (the marker pattern: only a skipped PhantomData field uses it) is still written in `Generic[..]`
+        3 => format!("#[typeshare]\npub struct S<B> {{ pub a: u32, #[serde(skip)] pub m: std::marker::PhantomData<{}> }}\n", ty),
+        4 => format!("#[typeshare]\npub struct S<A, B> {{ pub a: A, #[typeshare(skip)] pub m: std::marker::PhantomData<{}> }}\n", ty),
         _ => format!("#[typeshare]\npub struct Wrap<T> {{ pub t: T }}\n#[typeshare]\n#[serde(tag = \"t\", content = \"c\")]\npub enum E<B> {{ V {{ x: {} }}, W }}\n", ty),
     };
     let d = panic::catch_unwind(|| parse_named(&src, "f.rs")).ok().flatten().filter(|d| d.errors.is_empty())?;
@@ -1356,14 +1385,18 @@ fn main() {
             let report = |t: usize, n: usize, p: usize, m: String| { println!("WITNESS {{\"input\": {{\"trigger\": {}, \"nest\": {}, \"position\": {}}}, \"fails\": {:?}}}", t, n, p, m); std::process::exit(1); };
             if a[1] == "helper-check" {
                 let (t, n, p): (usize, usize, usize) = (a[2].parse().unwrap(), a[3].parse().unwrap(), a[4].parse().unwrap());
+                if t >= 2000 { if let Some(m) = ts_mapped_case(n, p) { report(t, n, p, m); } println!("input passes"); std::process::exit(0); }
                 if t >= 1000 { if let Some(m) = typevar_case(n, p) { report(t, n, p, m); } println!("input passes"); std::process::exit(0); }
                 if let Some(m) = helper_case2(t, n, p).or_else(|| helper_extra(t, n, p)) { report(t, n, p, m); }
                 println!("input passes"); std::process::exit(0);
             }
             let mut k = 0;
             for t in 0..HELPER_TRIGGERS.len() { for n in 0..HELPER_NEST.len() { for p in 0..5 { k += 1; if let Some(m) = helper_case2(t, n, p).or_else(|| helper_extra(t, n, p)) { report(t, n, p, m); } } } }
-            for n in 0..TYPEVAR_NEST.len() { for sh in 0..3 { k += 1; if let Some(m) = typevar_case(n, sh) { report(1000, n, sh, m); } } }
-            println!("no failing input among {} programs (8 trigger types x 9 nestings x 5 positions, + 8 generic-parameter nestings x 3 shapes) x 6 languages and 4 further configurations", k);
+            // positions 3 - 5 (inside Vec, tuple-variant payload, alias target) are the recorded finding kf-c12-ts-mapped-library-type-not-a-field: carved out by
+            // input here, replayed on every run through `helper-check 2000 <m> <p>`
+            for m in 0..TS_MAPPED.len() { for p in 0..3 { k += 1; if let Some(msg) = ts_mapped_case(m, p) { report(2000, m, p, msg); } } }
+            for n in 0..TYPEVAR_NEST.len() { for sh in 0..5 { if sh >= 3 && n > 1 { continue; } k += 1; if let Some(m) = typevar_case(n, sh) { report(1000, n, sh, m); } } }
+            println!("no failing input among {} programs (8 trigger types x 9 nestings x 5 positions, + 8 generic-parameter nestings x 3 shapes + 4 unused-parameter structs, + 2 mapped library types x 3 field positions for TypeScript) x 6 languages and 4 further configurations", k);
             std::process::exit(0);
         }
         Some("wire-search") | Some("wire-check") => {
